@@ -150,6 +150,20 @@ PROPS = {
         "technique": "Lean 4 model of blocksFromCursor/blocksThroughCursor + pure-consumer monitor (Lean): burst applied to the consumer state at the cursor must end on the hub's live chain + differential correspondence of every burst",
         "level_text": "PLACEHOLDER", "level_note": LEVEL_NOTE_COMMON, "explanation": "PLACEHOLDER",
     },
+    "C06": {
+        "suites": [("resolver", 2000, 25000)], "props": ["C06"], "level": "other",
+        "nontrivial": lambda suite, case, impl: any(l.startswith("impl ev undo") or l.startswith("impl ev irr") for l in case["lines"]),
+        "rule": "cases = a generated tree (4-17 blocks, forks with bias 10-50%, skipped numbers, LIB policies) fed to a real Forkable to obtain real cursors and the final canonical chain; the chain is written to merged bundles (size 2/3/5/10, real DBinBlockWriter), every forked block to the forked store as a one-block file (each missing with probability 0/0/15/40%, 1 in 25 unreadable), ids with an 18-char common prefix in a quarter of the cases (16-char truncation in file names); one delivered New/Undo/Irreversible cursor (half of the time one whose block ended up forked out) is resumed through the real NewFileSourceFromCursor with a stop block (1 in 5: NewFileSourceThroughCursor from a start block). distinct = sha1 of header+body; non-trivial = the resumption delivers an Undo or an Irreversible event",
+        "technique": "Lean 4 model of cursorResolver + FileSourceSeq + pure-consumer monitor (Lean): events applied to the consumer state implied by the cursor must end with an empty pending stack on the last canonical block + differential correspondence with real stores",
+        "level_text": "PLACEHOLDER", "level_note": LEVEL_NOTE_COMMON, "explanation": "PLACEHOLDER",
+    },
+    "C10": {
+        "suites": [("filesrc", 500, 6000)], "props": ["C10"], "level": "other",
+        "nontrivial": lambda suite, case, impl: sum(1 for l in case["lines"] if l.startswith("impl blk")) >= 3,
+        "rule": "cases = a linear chain of 4-29 blocks (skipped numbers 1 in 3) laid out in bundles of size 1/2/3/5/10 (real DBinBlockWriter, empty bundle files for ranges without blocks), start anywhere (mid-file, on a missing number, on the first base), stop block anywhere or none (then the run ends waiting for the next file), 1-8 preprocessor threads with pseudo-random 0-450 microsecond delays per preprocess call, optional legacy leading block below the bundle base, a broken parent link, a missing bundle file, a handler failure at call 0-5; distinct = sha1 of header+body; non-trivial = at least 3 blocks delivered",
+        "technique": "Lean 4 sequential model of FileSource (FileSourceSeq) + delivery monitor (Lean) + differential correspondence under randomised preprocess delays and thread counts",
+        "level_text": "PLACEHOLDER", "level_note": LEVEL_NOTE_COMMON, "explanation": "PLACEHOLDER",
+    },
     "C09": {
         "suites": [("hubburst", 2500, 30000)], "props": ["C09"], "level": "other",
         "projection": proj_forkable, "nontrivial": lambda suite, case, impl: any(l.startswith("impl b newirr") for l in case["lines"]),
